@@ -17,6 +17,13 @@ CONSTS = [
     "SAMPLE_FLAG_VIDC", "SAMPLE_FLAG_INTERLEAVED", "SAMPLE_FLAG_FULLREP", "SAMPLE_FLAG_ADLIB", "SAMPLE_FLAG_HSC", "SAMPLE_FLAG_ADPCM",
     "MAX_SAMPLE_SIZE", "XMP_MAX_PATTERNS_PROBE",
     "XMP_SMPCTL_SKIP", "LIBXMP_DEPACK_LIMIT_PROBE",
+    # pattern decoding of the core loaders (Model/PatCodecs.v)
+    "XMP_KEY_OFF", "XMP_KEY_CUT", "XMP_KEY_FADE",
+    "FX_XF_PORTA", "FX_SURROUND", "FX_REVERSE", "FX_VOLSLIDE_2", "FX_EXTENDED", "FX_VIBRATO", "FX_SETPAN", "FX_PANSL_NOMEM",
+    "FX_TONEPORTA", "FX_TONE_VSLIDE", "FX_VOLSLIDE", "FX_OFFSET", "FX_S3M_BPM", "FX_TREMOR", "FX_GLOBALVOL",
+    "FX_IT_INSTFUNC", "FX_PANBRELLO_WF", "FX_HIOFFSET", "FX_IT_ROWDELAY", "FX_MACRO_SET",
+    "FX_F_VSLIDE_UP_2", "FX_F_VSLIDE_DN_2", "FX_VSLIDE_UP_2", "FX_VSLIDE_DN_2", "FX_PORTA_DN", "FX_PORTA_UP",
+    "EX_F_VSLIDE_DN", "EX_F_VSLIDE_UP", "EX_FINETUNE", "EX_GLISS", "EX_VIBRATO_WF", "EX_TREMOLO_WF", "EX_PATTERN_LOOP",
 ]
 
 PROBE = r'''
@@ -24,6 +31,7 @@ PROBE = r'''
 #include "xmp.h"
 #include "common.h"
 #include "loaders/loader.h"
+#include "effects.h"
 #define P(n) printf(#n " %%lld\n", (long long)(n))
 int main(void) {
 %s
@@ -67,6 +75,36 @@ def int_table(path, name):
     if not m:
         raise V.BuildError("table %s not found in %s" % (name, path))
     return [int(x, 0) for x in re.findall(r"-?(?:0[xX][0-9a-fA-F]+|\d+)(?=[uUlL]*\s*[,}\s]|[uUlL]*$)", m.group(1) + " ")]
+
+
+def sym_table(path, name):
+    """a static table whose initialiser is written with macro names (effect translation tables of the loaders): the table's own
+    text and the object-like #defines of its file are compiled against the real headers and the values printed by the C compiler.
+    Returns (values, {local define: value})."""
+    s = strip_comments(open(os.path.join(V.REPO, path)).read())
+    m = re.search(r"static\s+const\s+(\w+)\s+" + re.escape(name) + r"\s*\[([^\]]*)\]\s*=\s*\{(.*?)\};", s, re.S)
+    if not m:
+        raise V.BuildError("table %s not found in %s" % (name, path))
+    defs = re.findall(r"^[ \t]*#[ \t]*define[ \t]+(\w+)[ \t]+([^\n\\]+)$", s[:m.start()], re.M)
+    d = tempfile.mkdtemp(prefix="vp-symtab-", dir="/var/tmp")
+    try:
+        src = os.path.join(d, "p.c")
+        body = "#include <stdio.h>\n#include \"xmp.h\"\n#include \"common.h\"\n#include \"effects.h\"\n"
+        body += "".join("#ifndef %s\n#define %s %s\n#endif\n" % (n, n, v) for n, v in defs)
+        body += "static const int T[%s] = {%s};\nint main(void) { unsigned i; for (i = 0; i < sizeof T / sizeof T[0]; i++) printf(\"E %%d\\n\", T[i]);\n" % (m.group(2), m.group(3))
+        body += "".join(" printf(\"D %s %%lld\\n\", (long long)(%s));\n" % (n, n) for n, v in defs if re.fullmatch(r"\s*(0[xX][0-9a-fA-F]+|\d+)\s*", v))
+        body += " return 0; }\n"
+        open(src, "w").write(body)
+        exe = os.path.join(d, "p")
+        r = subprocess.run(["cc", "-w"] + V.DEFINES + ["-I" + os.path.join(V.REPO, "include"), "-I" + os.path.join(V.REPO, "src"), src, "-o", exe], capture_output=True, text=True)
+        if r.returncode != 0:
+            raise V.BuildError("table probe for %s/%s does not compile:\n%s" % (path, name, r.stderr[:2000]))
+        out = subprocess.run([exe], capture_output=True, text=True).stdout
+    finally:
+        subprocess.run(["rm", "-rf", d])
+    vals = [int(l.split()[1]) for l in out.split("\n") if l.startswith("E ")]
+    loc = {l.split()[1]: int(l.split()[2]) for l in out.split("\n") if l.startswith("D ")}
+    return vals, loc
 
 
 def coq_list(vals, per=16):
@@ -125,6 +163,14 @@ def regenerate(with_objects=True):
     t.append("(* src/depackers/crc32.c *)")
     t.append("Definition crc32_A_table : list Z :=\n  %s." % coq_list(int_table("src/depackers/crc32.c", "crc32_A_table"), 8))
     t.append("Definition crc16_IBM_table : list Z :=\n  %s." % coq_list(int_table("src/depackers/crc32.c", "crc16_IBM_table"), 8))
+    s3m_fx, s3m_loc = sym_table("src/loaders/s3m_load.c", "fx")
+    it_fx, it_loc = sym_table("src/loaders/it_load.c", "fx")
+    t.append("(* src/loaders/s3m_load.c fx[] and its local markers *)")
+    t.append("Definition s3m_fx_table : list Z :=\n  %s." % coq_list(s3m_fx))
+    t.append("Definition S3M_NONE : Z := %d.\nDefinition S3M_FX_EXTENDED : Z := %d." % (s3m_loc["NONE"], s3m_loc["FX_S3M_EXTENDED"]))
+    t.append("(* src/loaders/it_load.c fx[] and its local markers *)")
+    t.append("Definition it_fx_table : list Z :=\n  %s." % coq_list(it_fx))
+    t.append("Definition IT_FX_NONE : Z := %d.\nDefinition IT_FX_XTND : Z := %d." % (it_loc["FX_NONE"], it_loc["FX_XTND"]))
     V.write_if_changed(os.path.join(V.COQ, "Generated", "Tables.v"), "\n".join(t) + "\n")
     if with_objects:
         inv = syscall_inventory()
